@@ -42,6 +42,12 @@ def ini_for(d, spec):
             ws['die'] = {str(sig): 0.0}
         txt += ('[watcher:%s]\ncmd = %s\nnumprocesses = %d\ngraceful_timeout = %s\nstop_signal = %s\nautostart = False\n'
                 'copy_env = True\n\n' % (w['name'], live.worker_cmd(ws), w['np'], w['gt'], w['stop_signal']))
+    if spec.get('on_demand'):
+        # an idle on-demand watcher: nothing is spawned until somebody connects to its socket; every periodic
+        # check looks at that socket
+        txt += ('[socket:od]\nhost = 127.0.0.1\nport = 0\n\n[watcher:od]\ncmd = %s --fd $(circus.sockets.od)\n'
+                'use_sockets = True\non_demand = True\nnumprocesses = 1\ncopy_env = True\ngraceful_timeout = 0.5\n\n'
+                % live.worker_cmd({'log': '@LOG@', 'tagw': 'od'}))
     return txt
 
 
